@@ -1,19 +1,23 @@
 #!/usr/bin/env python3
-"""tools/mut.py ID file old new [tier] : in-place mutate /repo/<file>, run ./check ID, revert.  For self-tests."""
-import subprocess, sys
+"""tools/mut.py ID file old new [tier] : mutate a scratch worktree of /repo, run ./check ID against it
+(VERIF_REPO), remove the worktree.  Self-test helper: /repo itself is never touched."""
+import os, subprocess, sys, tempfile, shutil
 pid, f, old, new = sys.argv[1:5]
 tier = sys.argv[5] if len(sys.argv) > 5 else "quick"
-path = "/repo/" + f
-if subprocess.run(["git", "-C", "/repo", "diff", "--quiet"]).returncode:
-  sys.exit("/repo dirty")
-s = open(path).read()
-old = old.encode().decode("unicode_escape"); new = new.encode().decode("unicode_escape")
-if s.count(old) != 1:
-  sys.exit("pattern occurs %d times" % s.count(old))
-open(path, "w").write(s.replace(old, new))
+wt = tempfile.mkdtemp(prefix="mutrepo-", dir="/tmp")
+os.rmdir(wt)
+subprocess.run(["git", "-C", "/repo", "worktree", "add", "--detach", "-q", wt, "HEAD"], check=True)
 try:
-  r = subprocess.run(["./check", pid, "--tier", tier], cwd="/verif", stdout=subprocess.PIPE, stderr=subprocess.STDOUT, text=True)
+  path = os.path.join(wt, f)
+  s = open(path).read()
+  old = old.encode().decode("unicode_escape"); new = new.encode().decode("unicode_escape")
+  if s.count(old) != 1:
+    sys.exit("pattern occurs %d times" % s.count(old))
+  open(path, "w").write(s.replace(old, new))
+  env = dict(os.environ, VERIF_REPO=wt)
+  # evidence/replays of a mutation run must not overwrite the real ones
+  r = subprocess.run(["./check", pid, "--tier", tier], cwd="/verif", stdout=subprocess.PIPE, stderr=subprocess.STDOUT, text=True, env=env)
 finally:
-  subprocess.run(["git", "-C", "/repo", "checkout", "--", "."])
+  subprocess.run(["git", "-C", "/repo", "worktree", "remove", "--force", wt])
 lines = [l for l in r.stdout.splitlines() if any(k in l for k in ("VIOLATION", "KNOWN", "MACHINERY", "tier=", "signature"))]
-print("\n".join(lines[:10])); print("exit=%d" % r.returncode)
+print("\n".join(lines[:8])); print("exit=%d" % r.returncode)
